@@ -34,7 +34,16 @@ RULE = (
     "primary/alternative prefix patterns (<=4 alternatives), all interleavings of child elements, all document "
     "shapes (<=2 runs, <=2 spectra, <=2 results, <=1 hit), all feature columns of <=4 cells over a 10-value pool; "
     "option cases = the same documents with exclude_features (0..5 names) / open_modification_bin_size / default "
-    "decoy_prefix / to_df=False, plus all exclusion sets of <=1 (thorough <=3) of 10 names x 3 bin settings"
+    "decoy_prefix / to_df=False, plus all exclusion sets of <=1 (thorough <=3) of 10 names x 3 bin settings; "
+    "second-pass cases = the same documents with data-file names whose base contains the extension elsewhere "
+    "than at the end / extensions without a dot / differing in case, decoy prefixes made of regular-expression "
+    "metacharacters (with targets that a pattern reading of the prefix would accept), charges of 2-3 digits, "
+    "hit_rank / is_rejected / num_tot_proteins varying per hit, identical hits / spectra / runs / files, "
+    "pathlib.Path arguments, lower-case residues, num_matched_peptides = 0; plus sweeps: 10 bases x 6 extensions, "
+    "duplicates at every level, 12 metacharacter prefixes x all primary/alternative patterns (<=2, thorough <=3 "
+    "alternatives) over {target, decoy, pattern-near target}; the optional-attribute columns of every case are "
+    "compared with their specification (column exists iff some hit has the attribute; value where present, "
+    "log10 for num_matched_peptides, NaN where absent)"
 )
 
 FIXED = ["ms_data_file", "scan", "charge", "ret_time", "exp_mass", "calc_mass", "peptide", "proteins", "label"]
@@ -72,7 +81,9 @@ def score_pow(ch):
     return None if ch[3] is None else int(ch[3][1:])
 
 
-def render_hit(h, opt):
+def render_hit(h, opt, idx=0, n=1):
+    """`idx` / `n`: position of the hit in its search_result and the number of hits there (used by the
+    `hit_meta` rendering variation only)"""
     attrs = [("peptide", h["pep"]), ("protein", h["prot"]), ("calc_neutral_pep_mass", h["calc"])]
     if h["mc"] is not None:
         attrs.append(("num_missed_cleavages", str(h["mc"])))
@@ -80,7 +91,15 @@ def render_hit(h, opt):
         attrs.append(("num_tol_term", str(h["ntt"])))
     if h["nm"] is not None:
         attrs.append(("num_matched_peptides", str(h["nm"])))
-    if opt.get("extra_attrs"):
+    meta = opt.get("hit_meta")
+    if meta:
+        # attributes the parser must ignore, with values that a filter would act on: ranks beyond 1, rejected
+        # hits, the true number of proteins
+        rank, rej = {"pos": (idx + 1, idx % 2), "rev": (n - idx, 0), "rej": (idx // 2 + 1, 1)}[meta]
+        ntot = 1 + sum(1 for c in h["children"] if c[0] == "a")
+        attrs += [("hit_rank", str(rank)), ("massdiff", "0.01"), ("num_tot_proteins", str(ntot)),
+                  ("is_rejected", str(rej))]
+    elif opt.get("extra_attrs"):
         attrs += [("hit_rank", "1"), ("massdiff", "0.01"), ("num_tot_proteins", "3"), ("is_rejected", "0")]
     if opt.get("rev_attrs"):
         attrs.reverse()
@@ -130,8 +149,8 @@ def render_file(f):
                 f"{k_}={quoteattr(v)}" for k_, v in sattrs if k_ != opt.get("drop_attr")) + ">")
             for res in s["results"]:
                 out.append("<search_result>")
-                for h in res:
-                    out += render_hit(h, opt)
+                for hi, h in enumerate(res):
+                    out += render_hit(h, opt, hi, len(res))
                 out.append("</search_result>")
             out.append("</spectrum_query>")
         out.append("</msms_run_summary>")
@@ -208,14 +227,24 @@ def wire_files(case):
 # ----------------------------------------------------------------------------
 # implementation
 # ----------------------------------------------------------------------------
+def call_arg(case, paths):
+    """the `pepxml_files` argument: a str / list / tuple of str, or the same of `pathlib.Path` (`as_path`)"""
+    if case.get("as_path"):
+        import pathlib
+
+        paths = [pathlib.Path(p) for p in paths]
+    arg = paths if (case.get("as_list", True) or len(paths) != 1) else paths[0]
+    if case.get("as_tuple") and isinstance(arg, list):
+        arg = tuple(arg)
+    return arg
+
+
 def run_impl(case):
     """-> ("ok", rows, featcols) | ("reject-<kind>", message)"""
     import mokapot
 
     paths = write_case(case)
-    arg = paths if (case.get("as_list", True) or len(paths) != 1) else paths[0]
-    if case.get("as_tuple") and isinstance(arg, list):
-        arg = tuple(arg)
+    arg = call_arg(case, paths)
     try:
         df = mokapot.read_pepxml(arg, decoy_prefix=case["prefix"], to_df=True)
     except ValueError as e:
@@ -418,9 +447,48 @@ def py_spec_hit(prefix, h):
     return accs, label, sp
 
 
-def compare(chk, case, resp_model, resp_spec, tag="gen", impl=None, skip=frozenset()):
+ATTR_KEYS = (("missed_cleavages", "mc"), ("ntt", "ntt"), ("num_matched_peptides", "nm"))
+
+
+def attr_spec(resp):
+    """answer of the `pepxml-attrs` op -> {key: (specified dict cell per hit, specified column)};
+    column: "none" (no such column) | "model-only" | [symbolic cell per hit]"""
+    out = {}
+    for ent in _parse_full(resp.strip()):
+        col = ent[2] if isinstance(ent[2], str) else [fv_parse(c) for c in ent[2]]
+        out[a_str(ent[0])] = ([xv_parse(c) for c in ent[1]], col)
+    return out
+
+
+def py_attr_spec(hits, key, attr):
+    """direct re-statement of the optional-attribute clauses (self-check of the Lean spec op)"""
+    cells = []
+    for h in hits:
+        sc = [c for c in h["children"] if c[0] == "s" and c[1] == key]
+        if sc:
+            cells.append(("t", Fraction(sc[-1][2]), score_pow(sc[-1])))
+        elif h[attr] is not None:
+            cells.append(("i", h[attr]))
+        else:
+            cells.append(None)
+    vals = [h[attr] for h in hits]
+    if any(c[0] == "s" and c[1] == key for h in hits for c in h["children"]):
+        col = "model-only"
+    elif all(v is None for v in vals):
+        col = "none"
+    elif key == "num_matched_peptides":
+        col = [("nan",) if v is None else ("l", Fraction(v)) for v in vals]
+    elif any(v is not None and v >= 10000 for v in vals):
+        col = "model-only"
+    else:
+        col = [("nan",) if v is None else ("p", Fraction(v)) for v in vals]
+    return cells, col
+
+
+def compare(chk, case, resp_model, resp_spec, tag="gen", impl=None, skip=frozenset(), resp_attrs=None):
     """`impl` / `skip` are used by `compare_opts` only: the implementation's output under options, reduced to
-    the default call's shape, and the excluded columns (compared there); the default path passes neither"""
+    the default call's shape, and the excluded columns (compared there); the default path passes neither.
+    `resp_attrs`: answer of the `pepxml-attrs` op (specification of the optional-attribute columns)"""
     if impl is None:
         impl = run_impl(case)
     dropped = [f["render"]["drop_attr"] for f in case["files"] if f.get("render", {}).get("drop_attr")]
@@ -507,6 +575,47 @@ def compare(chk, case, resp_model, resp_spec, tag="gen", impl=None, skip=frozens
             if not any(len(m) == len(ifd[n]) and all(same(a, b) for a, b in zip(m, ifd[n])) for m in modes.values()):
                 bad = ("score-value", f"column {n!r}={ifd[n]!r} is none of {modes!r}")
                 break
+    if resp_attrs is not None:
+        aspec = attr_spec(resp_attrs)
+        for key, attr in ATTR_KEYS:
+            assert aspec[key] == py_attr_spec(hits, key, attr), ("attr spec self-check", key, aspec[key])
+            if bad is not None or key in skip:
+                continue
+            col = aspec[key][1]
+            if col == "model-only":
+                continue  # a search score of the same name / a value >= 10000: only the model predicts the column
+            if col == "none":
+                if key in ifd:
+                    bad = ("attr-column-invented", f"column {key!r} although no search hit has the attribute")
+                continue
+            if key not in ifd:
+                bad = ("attr-missing", f"optional attribute {key!r} of some search hit is not a column")
+            elif ifd[key] is None:
+                bad = ("attr-not-numeric", f"column {key!r} is not a float column")
+            else:
+                want_col = [fv_value(c) for c in col]
+                if not (len(want_col) == len(ifd[key]) and all(same(a, b) for a, b in zip(want_col, ifd[key]))):
+                    k = next((i for i, (a, b) in enumerate(zip(want_col, ifd[key])) if not same(a, b)), None)
+                    bad = ("attr-value", f"column {key!r}: row {k} holds "
+                           f"{ifd[key][k] if k is not None else len(ifd[key])!r}, expected "
+                           f"{want_col[k] if k is not None else len(want_col)!r} (the attribute's value where the "
+                           f"hit has it — log10 for num_matched_peptides —, NaN where it has not)")
+    if bad is None and resp_attrs is not None:
+        # charge one-hot columns (direct re-statement of C20_charge_onehot): one column per distinct charge, in
+        # ascending numeric order, hot exactly for the PSMs of that charge
+        zs = sorted({s["charge"] for s in spec})
+        want_names = [f"charge_{z}" for z in zs if f"charge_{z}" not in skip]
+        got_names = [k for k, _ in ifeats if k.startswith("charge_")]
+        if got_names != want_names:
+            bad = ("charge-columns", f"charge columns {got_names!r}, expected {want_names!r} (distinct charges ascending)")
+        else:
+            for z in zs:
+                if f"charge_{z}" in skip:
+                    continue
+                want_col = [1.0 if s["charge"] == z else 0.0 for s in spec]
+                if ifd[f"charge_{z}"] != want_col:
+                    bad = ("charge-onehot", f"column charge_{z} = {ifd[f'charge_{z}']!r}, expected {want_col!r}")
+                    break
     if bad:
         chk.spec_violation(bad[0], dict(info, clause=bad[1], impl_rows=irows[:20],
                                         impl_feats=[(k, v[:20] if v else v) for k, v in ifeats]))
@@ -640,9 +749,7 @@ def run_impl_opts(case):
     import mokapot
 
     paths = write_case(case)
-    arg = paths if (case.get("as_list", True) or len(paths) != 1) else paths[0]
-    if case.get("as_tuple") and isinstance(arg, list):
-        arg = tuple(arg)
+    arg = call_arg(case, paths)
     kw = impl_kwargs(case)
     assert not case["opts"].get("default_prefix") or case["prefix"] == "decoy_"
     try:
@@ -753,7 +860,7 @@ def round4_candidates(c):
     return {float(Fraction(f, 10000)), float(Fraction(f + 1, 10000))}
 
 
-def compare_opts(chk, case, resp_model, resp_spec, resp_x, tag="gen"):
+def compare_opts(chk, case, resp_model, resp_spec, resp_x, tag="gen", resp_attrs=None):
     o = case["opts"]
     excl = list(o.get("exclude") or [])
     b = o.get("bin")
@@ -774,7 +881,7 @@ def compare_opts(chk, case, resp_model, resp_spec, resp_x, tag="gen"):
         return
     if impl[0] != "ok":
         n0 = findings(chk)
-        compare(chk, case, resp_model, resp_spec, tag, impl=impl)
+        compare(chk, case, resp_model, resp_spec, tag, impl=impl, resp_attrs=resp_attrs)
         if findings(chk) == n0 and mx[0] != impl[0]:
             chk.corr_break("pepxml-opts", dict(info, impl=list(impl), model=mx[0]))
         return
@@ -804,7 +911,7 @@ def compare_opts(chk, case, resp_model, resp_spec, resp_x, tag="gen"):
     reduced = [(c, v[1] if v[0] == "f" else None) for c, v in xcols if c not in skip]
     # ---- everything the options must not touch: same checks as the default call ------
     n0 = findings(chk)
-    compare(chk, case, resp_model, resp_spec, tag, impl=("ok", base_rows, reduced), skip=skip)
+    compare(chk, case, resp_model, resp_spec, tag, impl=("ok", base_rows, reduced), skip=skip, resp_attrs=resp_attrs)
     if findings(chk) != n0:
         return
     if mx[0] != "ok":
@@ -1127,6 +1234,7 @@ def eval_cases(chk, cases, tag="gen"):
         at.append(len(lines))
         lines.append(req("pepxml", c["prefix"], w))
         lines.append(req("pepxml-spec", c["prefix"], w))
+        lines.append(req("pepxml-attrs", w))
         if "opts" in c:
             o = c["opts"]
             lines.append(req("pepxml-opts", opt(None if o.get("default_prefix") else c["prefix"]), w,
@@ -1135,14 +1243,15 @@ def eval_cases(chk, cases, tag="gen"):
     for k, c in enumerate(cases):
         nv, nc = len(chk.spec_violations), len(chk.corr_breaks)
         if "opts" in c:
-            compare_opts(chk, c, resp[at[k]], resp[at[k] + 1], resp[at[k] + 2], tag)
+            compare_opts(chk, c, resp[at[k]], resp[at[k] + 1], resp[at[k] + 3], tag, resp_attrs=resp[at[k] + 2])
         else:
-            compare(chk, c, resp[at[k]], resp[at[k] + 1], tag)
+            compare(chk, c, resp[at[k]], resp[at[k] + 1], tag, resp_attrs=resp[at[k] + 2])
         sample = None
         if len(chk.samples) < 4 and n_hits(c) <= 3:
             sample = dict(case=c, model=resp[at[k]][:400])
         chk.case(None, case_key(c) if nontrivial(c) else None, sample=sample)
         tally(chk, c, tag)
+        tally2(chk, c)
         if "opts" in c:
             tally_opts(chk, c)
         if len(chk.spec_violations) > nv:
@@ -1374,8 +1483,8 @@ def dec_sub(a, b):
     return s
 
 
-def gen_case(rng, size=4):
-    prefix = rng.choice(PREFIXES)
+def gen_case(rng, size=4, prefixes=None):
+    prefix = rng.choice(prefixes or PREFIXES)
     r = rng.random()
     nfiles = 1 if r < 0.7 else (2 if r < 0.9 else 3)
     files = []
@@ -1513,6 +1622,11 @@ def exhaustive(chk, thorough):
         ("shapes", sweep_shapes(2, 2, 2, 1) if thorough else sweep_shapes(1, 2, 2, 1)),
         ("columns", sweep_columns(4 if thorough else 2) + sweep_columns(3 if thorough else 1)),
         ("opts", sweep_opts(3 if thorough else 1)),
+        ("datafile", sweep_datafile()),
+        ("duplicates", sweep_dups()),
+        ("charges", sweep_charges()),
+        ("hit-meta", sweep_hit_meta()),
+        ("prefix-metachars", sweep_prefixes2(3 if thorough else 2)),
     ]
     summary = {}
     for name, cases in plan:
@@ -1552,6 +1666,255 @@ def corpus_cases():
     if p.exists():
         return json.loads(p.read_text())
     return []
+
+
+# ----------------------------------------------------------------------------
+# second pass: input shapes the generators above never produce (see gaps/GAPS-C20.md, "Second pass")
+#   data-file names whose base contains the extension elsewhere than at the end / extensions without a dot,
+#   decoy prefixes made of regular-expression metacharacters, two- and three-digit charges, hits with ranks
+#   beyond 1 / rejected hits, identical hits / spectra / runs / files, pathlib.Path arguments, lower-case
+#   residues, a candidate count of 0
+# ----------------------------------------------------------------------------
+PREFIXES2 = ["sp|", "rev.", "DECOY+", "(d)", "d*", "[rev]_", "^rev_", "rev_$", "\\d", "##", "rev_|x", "dec?oy_"]
+REGEX_META = set(".+*?()[]^$|\\{}")
+DATAFILE_SHAPES = [("run.raw.pep", ".raw"), ("x.mzML.gz", ".mzML"), ("runmzML", "mzML"), ("run", "mzML"),
+                   ("a.MZML", ".mzML"), (".mzML", ".mzML"), ("ML", ".mzML"), ("C:\\data\\run1", ".d"),
+                   ("/data/run.1", ".1"), ("run.d.d", ".d"), ("raw", ".raw"), ("a.raw ", ".raw"), ("", ".mzML"),
+                   ("r.mzXML.mzML", ".mzXML"), ("a.rawb", ".raw"), ("run.RAW", ".raw")]
+BIG_CHARGES = [10, 12, 11, 23, 100]
+
+
+def regex_near(prefix):
+    """an accession that does not start with `prefix` but that `re.match(prefix, ·)` / a wildcard reading of the
+    prefix would accept"""
+    out, i = "", 0
+    while i < len(prefix):
+        c = prefix[i]
+        if c == "\\" and i + 1 < len(prefix):
+            out += "7" if prefix[i + 1] == "d" else prefix[i + 1]
+            i += 2
+            continue
+        if c == "|":
+            break
+        if c == ".":
+            out += "X"
+        elif c not in REGEX_META:
+            out += c
+        i += 1
+    return out + "Q9"
+
+
+def mix_case(rng, pep):
+    return "".join(c.lower() if rng.random() < 0.5 else c for c in pep) or pep
+
+
+def clone(x):
+    return json.loads(json.dumps(x))
+
+
+def duplicate_something(rng, case):
+    docs = [f for f in case["files"] if "bad" not in f]
+    f = rng.choice(docs)
+    kind = rng.choice(["hit", "hit", "spectrum", "run", "file"])
+    runs = [r for r in f["runs"] if any(res for sp in r["spectra"] for res in sp["results"])]
+    if kind == "file" or not runs:
+        case["files"].append(clone(f))
+        return
+    r = rng.choice(runs)
+    if kind == "run":
+        f["runs"].insert(rng.randint(0, len(f["runs"])), clone(r))
+        return
+    sp = rng.choice([x for x in r["spectra"] if any(res for res in x["results"])])
+    if kind == "spectrum":
+        r["spectra"].insert(rng.randint(0, len(r["spectra"])), clone(sp))
+        return
+    res = rng.choice([q for q in sp["results"] if q])
+    res.insert(rng.randint(0, len(res)), clone(rng.choice(res)))
+
+
+def gen_case2(rng, size=3):
+    case = gen_case(rng, size, prefixes=PREFIXES2 if rng.random() < 0.5 else None)
+    docs = [f for f in case["files"] if "bad" not in f]
+    for f in docs:
+        for r in f["runs"]:
+            if rng.random() < 0.5:
+                r["base"], r["ext"] = rng.choice(DATAFILE_SHAPES)
+            for sp in r["spectra"]:
+                if rng.random() < 0.3:
+                    sp["charge"] = rng.choice(BIG_CHARGES)
+                for res in sp["results"]:
+                    for h in res:
+                        if rng.random() < 0.08:
+                            h["pep"] = mix_case(rng, h["pep"])
+                        if h["nm"] is not None and rng.random() < 0.04:
+                            h["nm"] = 0
+                        if rng.random() < 0.1 and case["prefix"] in PREFIXES2:
+                            # a target that a pattern reading of the prefix would take for a decoy
+                            near = regex_near(case["prefix"])
+                            alts = [c for c in h["children"] if c[0] == "a"]
+                            if alts and rng.random() < 0.5:
+                                rng.choice(alts)[1] = near
+                            else:
+                                h["prot"] = near
+        if rng.random() < 0.6:
+            f["render"]["hit_meta"] = rng.choice(["pos", "rev", "rej"])
+    if docs and rng.random() < 0.45:
+        duplicate_something(rng, case)
+    case["as_path"] = rng.random() < 0.3
+    if rng.random() < 0.3:
+        case["opts"] = gen_opts(rng, case)
+        if any(h["nm"] == 0 for f in docs for h in iter_hits(f)):
+            case["opts"]["dataset"] = False  # log10(0) = -inf is not a feature value a dataset need accept
+    return case
+
+
+def sweep_datafile():
+    """every base x extension over small pools, one run each, in one document"""
+    bases = ["run", "run.raw", "run.raw.x", "a.rawb", ".raw", "raw", "RUN.RAW", "", "r.mzML.raw", "w.raw.w"]
+    exts = [".raw", "raw", "", ".RAW", ".mzML", "w"]
+    runs = []
+    for b in bases:
+        for e in exts:
+            runs.append(dict(base=b, ext=e, spectra=[dict(scan=len(runs) + 1, charge=2, rt="1.5", exp="500.75", results=[[
+                simple_hit(pep="PEK", prot="T", children=[["s", "x", "1.5", None]])]])]))
+    return [dict(prefix="decoy_", files=[dict(runs=runs, render={})], as_list=False)]
+
+
+def sweep_dups():
+    """identical hits in one search result / in two results, identical spectra, runs and files"""
+    def h(tag, **kw):
+        return simple_hit(pep="PEK", prot="decoy_" + tag, mc=1, children=[["s", "x", "2.5", None], ["a", "T" + tag]], **kw)
+
+    def sp(results, scan=7):
+        return dict(scan=scan, charge=2, rt="1.5", exp="500.75", results=results)
+
+    def doc(spectra, nrun=1):
+        return dict(runs=[dict(base="r", ext=".mzML", spectra=clone(spectra)) for _ in range(nrun)], render={})
+
+    a, b = h("a"), h("b")
+    docs = [doc([sp([[a, a]])]), doc([sp([[a, b, a]])]), doc([sp([[a, a, a]])]), doc([sp([[a], [a]])]),
+            doc([sp([[a, b]]), sp([[a, b]])]), doc([sp([[a]]), sp([[b]], scan=8), sp([[a]])]),
+            doc([sp([[a, b]])], nrun=2), doc([sp([[a]])], nrun=3)]
+    cases = [dict(prefix="decoy_", files=[d], as_list=bool(i % 2)) for i, d in enumerate(docs)]
+    one = doc([sp([[a, b]]), sp([[b]], scan=9)])
+    cases.append(dict(prefix="decoy_", files=[one, clone(one)], as_list=True))
+    cases.append(dict(prefix="decoy_", files=[one, clone(one), clone(one)], as_list=True, as_tuple=True))
+    cases.append(dict(prefix="decoy_", files=[one, doc([sp([[a]])]), clone(one)], as_list=True, as_path=True,
+                      opts=dict(exclude=["x"], exclude_form="str", bin="0.5", dataset=True)))
+    return cases
+
+
+def sweep_charges():
+    spectra = [dict(scan=k + 1, charge=z, rt="1.5", exp="1500.75", results=[[
+        simple_hit(pep="PEK", prot="T", calc="1500.25", children=[["s", "x", "1.5", None]])]])
+        for k, z in enumerate([2, 10, 3, 12, 1, 100, 23, 10, 9, 11])]
+    return [dict(prefix="decoy_", files=[dict(runs=[dict(base="r", ext=".mzML", spectra=spectra[:n])], render={})],
+                 as_list=True) for n in (2, 4, 10)]
+
+
+def sweep_hit_meta():
+    hits = [simple_hit(pep="PEK", prot=("decoy_P" if k % 2 else "T") + str(k), children=[["s", "x", str(k), None]])
+            for k in range(5)]
+    cases = []
+    for meta in ("pos", "rev", "rej"):
+        spectra = [dict(scan=1, charge=2, rt="1.5", exp="500.75", results=[clone(hits), clone(hits[:2])]),
+                   dict(scan=2, charge=3, rt="2.5", exp="600.75", results=[clone(hits[2:])])]
+        cases.append(dict(prefix="decoy_", files=[dict(runs=[dict(base="r", ext=".mzML", spectra=spectra)],
+                                                       render=dict(hit_meta=meta, extra_attrs=(meta == "rev")))],
+                          as_list=True))
+    return cases
+
+
+def sweep_prefixes2(amax=2):
+    """primary / alternative patterns over: target, decoy (literal prefix), and a target that a pattern reading of
+    the prefix would accept — for every prefix made of regular-expression metacharacters"""
+    cases = []
+    for p in PREFIXES2:
+        kinds = {"T": "sp_T", "D": p + "P", "R": regex_near(p)}
+        hits = []
+        for k in range(0, amax + 1):
+            for pat in itertools.product("TDR", repeat=k + 1):
+                ch = [["s", "x", "1.5", None]] + [["a", kinds[c]] for c in pat[1:]]
+                hits.append(simple_hit(prot=kinds[pat[0]], children=ch))
+        cases += pack(hits, prefix=p)
+    return cases
+
+
+def edge_cases2():
+    h = simple_hit
+    cases = []
+    # a pathlib.Path instead of a str; alone and in a tuple
+    cases.append(dict(prefix="decoy_", files=[clone(GOOD_DOC)], as_list=False, as_path=True))
+    cases.append(dict(prefix="decoy_", files=[clone(GOOD_DOC), clone(GOOD_DOC)], as_list=True, as_tuple=True, as_path=True))
+    # optional attributes: present on one hit only, on none, everywhere; a candidate count of 0 and of 1
+    for pat in ([(None, None, None), (1, None, None)], [(None, None, None)] * 2, [(0, 2, 10), (2, 0, 1), (1, 1, 1000000)],
+                [(None, 2, 0), (None, None, 5)], [(None, None, 1), (None, None, None)], [(12000, 1, None), (1, 2, None)]):
+        cases += pack([h(children=[["s", "xcorr", "2", None]], mc=mc, ntt=ntt, nm=nm) for mc, ntt, nm in pat])
+    return cases
+
+
+def dup_kind(case):
+    keys, per_file = [], []
+    for f in case["files"]:
+        ks = []
+        for r in f.get("runs", []):
+            for sp in r["spectra"]:
+                for res in sp["results"]:
+                    for h in res:
+                        ks.append(json.dumps([r["base"], r["ext"], sp["scan"], sp["charge"], sp["rt"], sp["exp"], h],
+                                             sort_keys=True))
+        per_file.append(ks)
+        keys += ks
+    if len(set(keys)) == len(keys):
+        return "none"
+    return "within-file" if any(len(set(ks)) != len(ks) for ks in per_file) else "across-files"
+
+
+def datafile_shape(base, ext):
+    if ext == "":
+        return "ext-empty"
+    if base == ext:
+        return "base-is-ext"
+    if base.endswith(ext):
+        return "ends-with-ext"
+    if ext in base:
+        return "ext-inside-base"
+    if base.lower().endswith(ext.lower()):
+        return "ends-case-differs"
+    return "appended" if ext.startswith(".") else "appended-no-dot"
+
+
+def tally2(chk, case):
+    chk.count("prefix-kind", "regex-metachars" if REGEX_META & set(case["prefix"]) else "literal")
+    form = "path" if case.get("as_path") else "str"
+    n = len(case["files"])
+    shape = "single" if (n == 1 and not case.get("as_list", True)) else ("tuple" if case.get("as_tuple") else "list")
+    chk.count("arg-form", f"{shape}-of-{form}")
+    chk.count("duplicate-psms", dup_kind(case))
+    nruns = 0
+    zmax, lower, nm0 = 0, False, False
+    for f in case["files"]:
+        if "bad" in f:
+            continue
+        chk.count("hit-meta", f.get("render", {}).get("hit_meta") or "constant")
+        for r in f["runs"]:
+            if nruns < 20:
+                chk.count("datafile-shape", datafile_shape(r["base"], r["ext"]))
+            nruns += 1
+            for sp in r["spectra"]:
+                if any(sp["results"]) and any(res for res in sp["results"]):
+                    zmax = max(zmax, len(str(sp["charge"])))
+        for h in iter_hits(f):
+            lower = lower or h["pep"] != h["pep"].upper()
+            nm0 = nm0 or h["nm"] == 0
+    chk.count("charge-digits", zmax)
+    chk.count("peptide-lowercase", lower)
+    chk.count("num-matched-zero", nm0)
+    hits = [h for f in case["files"] for h in iter_hits(f)]
+    if hits:
+        chk.count("attr-columns", "".join(
+            ("a" if all(h[k] is not None for h in hits) else "s" if any(h[k] is not None for h in hits) else "-")
+            for k in ("mc", "ntt", "nm")))
 
 
 # ----------------------------------------------------------------------------
@@ -1633,7 +1996,8 @@ def minimise(chk):
 # ----------------------------------------------------------------------------
 def search(chk):
     rng = chk.rng
-    cases = [gen_case(rng, 6) if i % 4 else gen_opts_case(rng, 5) for i in range(1500)]
+    cases = [gen_opts_case(rng, 5) if i % 4 == 0 else gen_case2(rng, 5) if i % 4 == 2 else gen_case(rng, 6)
+             for i in range(1500)]
     for i in range(0, len(cases), 200):
         eval_cases(chk, cases[i:i + 200], tag="search")
         if chk.spec_violations:
@@ -1661,6 +2025,12 @@ def main(chk, args):
         ocases = [gen_opts_case(rng, 3 if (i % 10 or chk.tier == "quick") else 8) for i in range(m)]
         for i in range(0, len(ocases), 200):
             eval_cases(chk, ocases[i:i + 200], tag="gen-opts")
+        # second pass: shapes the generators above never produce (generated last: the streams above are unchanged)
+        eval_cases(chk, edge_cases2(), tag="edge-2")
+        m2 = 150 if chk.tier == "quick" else 2500
+        cases2 = [gen_case2(rng, 3 if (i % 10 or chk.tier == "quick") else 8) for i in range(m2)]
+        for i in range(0, len(cases2), 200):
+            eval_cases(chk, cases2[i:i + 200], tag="gen-2")
         exhaustive(chk, chk.tier == "thorough")
         minimise(chk)
     finally:
@@ -1684,6 +2054,10 @@ def main(chk, args):
         "adjacent bin; sizes <= 0 are outside the model), the default decoy_prefix, and to_df=False (feature list, "
         "column roles, data identical to to_df=True) are exercised on separately generated cases; the bin value is "
         "read back from the peptide text with float()",
+        "second pass: hit_rank / is_rejected / num_tot_proteins / massdiff are attributes the parser does not read "
+        "(rendered with varying values, not part of the abstract document); optional-attribute columns are "
+        "specified for attribute values < 10000 and no search score of the same name (otherwise model only); "
+        "num_matched_peptides = 0 gives log10(0) = -inf on both sides (numpy), such cases do not use to_df=False",
     ]
     chk.finish(build, RULE, search=search, lc=lc,
                trusted_extra=["lxml iterparse, pandas DataFrame.from_records/concat/get_dummies/apply/astype, "
